@@ -479,7 +479,10 @@ func runC07Restore(c *core.Ctx) *core.Violation {
 		cfg.Sticky = 300 + t.Choose(650)
 	}
 	netMode := t.Choose(2)
-	c.Sample = map[string]interface{}{"sub": "restore-mode", "parallel": conf.Options.Parallel, "inputs": len(conf.Options.SourceRdbInput), "rdb_parallel": conf.Options.SourceRdbParallel, "records": len(fc.recs), "policy": fc.policy, "target_db": fc.f.TargetDB,
+	if t.Choose(3) == 2 {
+		cfg.IOStall = 5 + t.Choose(60) // slow input file: reads stall for 50 ms - 3 s
+	}
+	c.Sample = map[string]interface{}{"io_stall_per_mille": cfg.IOStall, "sub": "restore-mode", "parallel": conf.Options.Parallel, "inputs": len(conf.Options.SourceRdbInput), "rdb_parallel": conf.Options.SourceRdbParallel, "records": len(fc.recs), "policy": fc.policy, "target_db": fc.f.TargetDB,
 		"filters": fmt.Sprintf("dbW=%v dbB=%v keyW=%v keyB=%v lua=%v", fc.f.DBWhite, fc.f.DBBlack, fc.f.KeyWhite, fc.f.KeyBlack, fc.f.FilterLua), "net_mode": netMode}
 	var viol *core.Violation
 	var proc *simrt.Proc
@@ -562,7 +565,7 @@ func init() {
 		},
 		RealVsStub: "real: dbSync.syncRDBFile + restore workers, run.CmdRestore (real input file), utils.NewRDBLoader/RestoreRdbEntry, filter, redigo; simulated: TCP, target model with injected error replies, master model, clock, scheduling, process exit",
 		ProbeNames: []string{"parallel_gt1", "target_db", "failure_reported", "conn_reset_reported", "conn_reset_full_phase_redone", "several_inputs_at_once"},
-		FaultNames: []string{"target_error_reply", "conn_cut", "latency", "segment_split"},
+		FaultNames: []string{"target_error_reply", "conn_cut", "io_stall", "latency", "segment_split"},
 	})
 }
 
